@@ -460,10 +460,12 @@ func streamParse(c *mon.Case, pf fmtio.Format, in []byte, o popt) {
 	rd := &countingReader{data: in}
 	p := phylip.NewParser(rd, pf.Strict).IgnoreIdentical(o.policy).Alphabet(o.alpha)
 	count := 0
+	var endErr error
 	verdict, detail := guarded(func() {
 		for {
 			al, err := p.Parse()
 			if err != nil || al == nil {
+				endErr = err
 				return
 			}
 			count++
@@ -508,6 +510,13 @@ func streamParse(c *mon.Case, pf fmtio.Format, in []byte, o popt) {
 	}
 	if got != count {
 		c.Failf(base(pf)+":multiple:count", "ParseMultiple delivered %d alignments, repeated Parse %d\ninput=%s", got, count, show(in))
+	}
+	// "an error or a well-formed result": what ends the stream is reported the same way through both entry points
+	if (ch.Err != nil) != (endErr != nil) {
+		c.Failf(base(pf)+":multiple:error-lost", "after %d alignments repeated Parse ends with error %v, ParseMultiple closes its channel with Err=%v\ninput=%s", count, endErr, ch.Err, show(in))
+	}
+	if endErr != nil && count >= 1 {
+		c.Count("stream-error-after-a-valid-member")
 	}
 	if count >= 2 {
 		c.Count("stream-with-2+")
